@@ -109,8 +109,11 @@ def templates(ck: Check):
             items.append([rng.randint(1, w), rng.randint(1, h), rng.randint(1, 4)])
         if len({(a, b) for a, b, _ in items}) != len(items):
             continue
+        # names of every shape a template can have - in particular names that already END in the suffix "n" (a generated
+        # instance used as template, or simply "twin"): the generated name is template name + "n", always
+        nm = (f"rnd{made}", f"rnd{made}n", f"gen{made}nn", f"twin{made}_n", f"N{made}", f"n{made}")[made % 6]
         try:
-            t = Tpl(f"rnd{made}", Instance(f"rnd{made}", w, h, items))
+            t = Tpl(nm, Instance(nm, w, h, items))
         except ValueError:
             continue
         made += 1
